@@ -113,6 +113,8 @@ ODD_IF_NONE_MATCH = [" *", "**", '"*"', "* ", '"x"', ""]                      # 
 def vary_wire(rng, r, p=0.25):
     """now and then replace a header by an unusual but legal-to-send text (absent, other case, padding, other values)"""
     m = r["method"]
+    if m in ("PUT", "DELETE", "GET", "MOVE") and not r.get("as_collection") and rng.random() < p / 2:
+        r["trailing_slash"] = True
     if rng.random() >= p:
         return r
     if m == "MOVE":
@@ -262,9 +264,9 @@ class Sim:
             if r.get("book"):
                 body = body.replace("C:calendar-multiget", "CR:addressbook-multiget").replace(
                     'xmlns:C="urn:ietf:params:xml:ns:caldav"', 'xmlns:CR="urn:ietf:params:xml:ns:carddav"')
+        if r.get("trailing_slash") and not path.endswith("/"):
+            path += "/"          # an item URL written with a trailing slash names the same resource (discover() strips it)
         for k, v in wire_of(r).items():
-            if m == "REPORT" and k == "depth":
-                continue
             env.pop(WIRE_HEADERS[k], None)
             if v is not None:
                 env[WIRE_HEADERS[k]] = v
@@ -340,7 +342,7 @@ class Sim:
                        rights=[{"user": u, "path": list(p), "perms": perms} for (u, p), perms in self.rights_table.items()],
                        permit_delete=self.permit_delete, permit_overwrite=self.permit_overwrite)
             w = wire_of(r)
-            if any(v is not None for v in w.values()):
+            if r["method"] in ("PUT", "DELETE", "MOVE", "PROPFIND"):
                 # the meaning of the header texts comes from the Lean model (CondHeaders.digestPut / digestDelete / overwrites /
                 # listsChildren); this side only supplies the table ETag text -> content id observed so far
                 table = [[k, json.loads(v)] for k, v in self.etags.r2m.items() if isinstance(json.loads(v), int)]
@@ -526,11 +528,9 @@ def _gen_request(rng, sim, known_etags):
             sel = objs(rng.randint(0, 3), ["VEVENT", "VTODO", "VJOURNAL"])
             r.update(body="cal", objs=sel)
         else:
-            sel = objs(rng.randint(1, 3), ["VCARD"])
-            uniq = {}
-            for o in sel:
-                uniq.setdefault(o["uid"], o)     # duplicate UIDs in an address book upload are finding F13
-            r.update(body="cards", objs=list(uniq.values()))
+            # (two contacts with one UID in an upload are refused since the repair of F13: both sides must say 400)
+            sel = objs(rng.randint(1, 3), ["VCARD"], same_uid=rng.random() < 0.25)
+            r.update(body="cards", objs=sel)
         if rng.random() < 0.1:
             r["if_none_match_star"] = True
         return r
